@@ -151,7 +151,8 @@ Inductive step :=
 | StPhase (a_sends : bool) (sops : list sop) (serr : list N) (wire : option (list xw))   (* None: wire not compared *)
           (edit : option (list eframe)) (rops : list rop) (rres : list rres)
 | StHandoff (who_a : bool) (ok : bool)       (* ExportCryptoState then NewStreamWithCryptoState on the same connection *)
-| StCrypto (who_a : bool) (on : bool) (ok : bool).   (* SetCryptoMode on the receiving side too *)
+| StCrypto (who_a : bool) (on : bool) (ok : bool)    (* SetCryptoMode on the receiving side too *)
+| StRekey (k ivA ivB : bytes) (ok : bool).            (* SetSymmetricKey again on both ends, with the IVs drawn *)
 
 Inductive case := CPair (su : setup) (steps : list step).
 
@@ -255,6 +256,16 @@ Definition run_step (w : world) (st : step) : world * bool :=
       (if who_a then {| wa := s'; wb := wb w; hab := hab w; hba := hba w; wkey := wkey w; pab := pab w; pba := pba w |}
        else {| wa := wa w; wb := s'; hab := hab w; hba := hba w; wkey := wkey w; pab := pab w; pba := pba w |},
        Bool.eqb (e =? 0) ok)
+  | StRekey k ivA ivB ok =>
+      match set_key (wa w) k ivA, set_key (wb w) k ivB with
+      | SOk a, SOk b =>
+          (* hypothesis of C12_rekey_nonce_unique, checked on the run: a new key, or base IVs that
+             differ from the previous ones beyond the counter word *)
+          let fresh (old new : bytes) := negb (bytes_eqb (skipn 4 old) (skipn 4 new)) in
+          ({| wa := a; wb := b; hab := hab w; hba := hba w; wkey := k; pab := pab w; pba := pba w |},
+           ok && (negb (bytes_eqb k (wkey w)) || (fresh (enc_iv (wa w)) ivA && fresh (enc_iv (wb w)) ivB)))
+      | _, _ => (w, negb ok)
+      end
   end.
 
 Fixpoint run_steps (w : world) (sts : list step) : bool :=
